@@ -100,12 +100,12 @@ def isotxs_specs(quick, fmt="isotxs"):
                             continue
                         add(ng, [_nuc(fis, chi, rx, strpd, ltrn, ltot, [[100, 1, full_band(ng)]])], fwchi=fw, tag="flags")
     # B. one scatter block: every kind x every band layout x sub-blocking
-    kinds = (100, 200, 102) if gam and quick else (100, 101, 200, 300, 0, 102)
+    kinds = (100, 102) if gam and quick else (100, 101, 200, 300, 0, 102)
     for ng in (1, 2, 3):
         for kind in kinds:
             for lay in band_layouts(ng):
                 for nsblok in (1, 2, 3):
-                    if quick and nsblok == 3 and ng < 3:
+                    if quick and nsblok > 1 and (kind not in (100, 200, 102) or (nsblok == 3 and (ng < 3 or gam))):
                         continue
                     add(ng, [_nuc(blocks=[[kind, 1, lay]])], nsblok=nsblok, tag="band")
     # C. several blocks / nuclides, absent blocks (ords 0), no blocks at all
@@ -539,16 +539,13 @@ def _cx_model(s, rot=0):
         q = {"chiFlag": chiFlag, "up": [w[0] for w in s["widths"]], "down": [w[1] for w in s["widths"]], "famI": v.ints(s["fam"]), "groups": []}
         q["scat"] = {o: {} for o in range(s["order"] + 1)}
         for g in range(ng):
-            gr = {"prim": v.reals(4), "fis": v.reals(2) if chiFlag else None, "chi": v.reals(chiFlag), "pc": v.reals(6), "prec": v.ints(s["fam"]), "n2n": v.r()}
+            gr = {"prim": v.reals(4), "fis": v.reals(2) if chiFlag else None, "chi": v.reals(chiFlag), "pc": v.reals(7), "prec": v.ints(s["fam"]), "n2n": v.r()}
             for o in range(s["order"] + 1):
                 for r in range(g - q["down"][g], g + q["up"][g] + 1):
                     q["scat"][o][r, g] = v.r()
             q["groups"].append(gr)
         m["comps"].append(q)
     return m
-
-
-PC_KEYS = ["powerConvMult", "d1Multiplier", "d1Additive", "d2Additive", "d3Multiplier", "d3Additive"]
 
 
 def compxs_build(s, rot=0):
@@ -586,7 +583,10 @@ def compxs_build(s, rot=0):
         r["numUpScatterGroups"], r["numDownScatterGroups"] = np.array(q["up"], dtype=int), np.array(q["down"], dtype=int)
         if s["fam"]:
             r["numFamI"] = np.array(q["famI"], dtype=int)
-        for i, key in enumerate(PC_KEYS):
+        from armi.nuclearDataIO.nuclearFileMetadata import REGIONXS_POWER_CONVERT_DIRECTIONAL_DIFF as pcKeys
+
+        # the container holds one list per *name* armi reads/writes in the 4D record (7 reals)
+        for i, key in enumerate(pcKeys):
             r[key] = [gr["pc"][i] for gr in q["groups"]]
         mac = reg.macros
         for i, name in enumerate(("absorption", "total", "removal", "transport")):
@@ -614,7 +614,9 @@ def compxs_ref_lengths(s, rot=0):
     """record lengths only (8-byte reals, 4-byte integers), by the DIF3D COMPXS description"""
     ng, nc = s["ng"], len(s["chis"])
     recs = [("1D-specifications", 4 * 10)]
-    recs.append(("2D-composition-independent-data", 8 * (s["fwchi"] * ng) + 8 * (2 * ng + 1) + (8 * (ng * s["ndelay"] + s["ndelay"]) if s["ndelay"] else 0) + 4 * nc))
+    # the width (and index order) of the file-wide chi / delayed chi blocks cannot be settled offline
+    # (armi uses 4-byte reals there, 8-byte ones everywhere else in this file): presence only
+    recs.append(("2D-composition-independent-data", None if (s["fwchi"] or s["ndelay"]) else 8 * (2 * ng + 1) + 4 * nc))
     for chiFlag in s["chis"]:
         recs.append(("3D-composition-specifications", 4 * (1 + 2 * ng + s["fam"])))
         for g in range(ng):
@@ -647,3 +649,147 @@ FORMATS = {
     "dlayxs": (dlayxs_specs, dlayxs_build, dlayxs_ref, dlayxs_io, dlayxs_observe),
     "compxs": (compxs_specs, compxs_build, compxs_ref_lengths, compxs_io, compxs_observe),
 }
+
+
+# =============================================================================================
+# systematic reduction of fixture libraries
+
+
+def reduce(fmt, whole, keep, clear=None):
+    """sub-container holding the members ``keep`` (indices, in that order) of ``whole``; ``clear``
+    names one optional datum that is removed together with its header flag."""
+    if fmt in ("isotxs", "gamiso", "pmatrx"):
+        return _reduce_lib(fmt, whole, keep, clear)
+    if fmt == "dlayxs":
+        return _reduce_dlayxs(whole, keep)
+    if fmt == "compxs":
+        return _reduce_compxs(whole, keep)
+    raise ValueError(fmt)
+
+
+def _reduce_lib(fmt, whole, keep, clear):
+    np = _np()
+    from armi.nuclearDataIO import xsLibraries
+
+    new = xsLibraries.IsotxsLibrary()
+    getattr(new, fmt + "Metadata").update(getattr(whole, fmt + "Metadata"))
+    for prop in ("neutronVelocity", "neutronEnergyUpperBounds", "gammaEnergyUpperBounds", "neutronDoseConversionFactors", "gammaDoseConversionFactors"):
+        val = getattr(whole, "_" + prop, None)
+        if val is not None:
+            setattr(new, prop, val)
+    labels = whole.nuclideLabels
+    for i in keep:
+        nuc = whole[labels[i]]
+        new[labels[i]] = nuc
+        if not clear:
+            continue
+        if fmt == "pmatrx":
+            p = nuc.pmatrxMetadata
+            if clear == "heat":
+                p["hasNeutronHeatingAndDamage"] = False
+                nuc.neutronHeating = nuc.neutronDamage = None
+            elif clear == "gheat":
+                p["hasGammaHeating"] = False
+                nuc.gammaHeating = None
+            elif clear == "order0":
+                p["maxScatteringOrder"] = 0
+                nuc.isotropicProduction = nuc.linearAnisotropicProduction = None
+                nuc.nOrderProductionMatrix = {}
+            continue
+        md = nuc.gamisoMetadata if fmt == "gamiso" else nuc.isotxsMetadata
+        mic = nuc.gammaXS if fmt == "gamiso" else nuc.micros
+        ng = len(mic.nGamma)
+        if clear == "n2n":
+            md["n2n"] = 0
+            mic.n2n = np.zeros(ng)
+        elif clear == "fis":
+            md["fisFlag"], md["chiFlag"] = 0, 0
+            mic.fission, mic.neutronsPerFission, mic.chi = np.zeros(ng), np.zeros(ng), np.zeros(ng)
+        elif clear == "ltrn1":
+            md["ltrn"] = 1
+            mic.transport = mic.transport[:, :1].copy()
+        elif clear.startswith("block"):
+            b = int(clear[5:])
+            if b < len(md["ords"]):
+                ords = np.array(md["ords"])
+                ords[b] = 0
+                md["ords"] = ords
+                flag = int(md["scatFlag"][b])
+                if flag in (100, 200, 300, 0, 101):
+                    _scat_attr(flag, mic, b, None)
+                else:
+                    mic.higherOrderScatter.pop(b, None)
+    return new
+
+
+def _reduce_dlayxs(whole, keep):
+    np = _np()
+    from armi.nuclearDataIO.cccc import dlayxs
+
+    new = dlayxs.Dlayxs()
+    for k, v in whole.metadata.items():
+        new.metadata[k] = v
+    keys = list(whole.keys())
+    new.metadata["nuclideIDs"] = np.array([whole.metadata["nuclideIDs"][i] for i in keep])
+    new.metadata["nkfam"] = np.array([whole.metadata["nkfam"][i] for i in keep], dtype=int)
+    new.metadata["recordsToSkip"] = np.arange(len(keep))
+    new.neutronEnergyUpperBounds = whole.neutronEnergyUpperBounds
+    for i in keep:
+        new[keys[i]] = whole[keys[i]]
+        new.nuclideFamily[keys[i]] = whole.nuclideFamily[keys[i]]
+    return new
+
+
+def _reduce_compxs(whole, keep):
+    np = _np()
+    from armi.nuclearDataIO import xsLibraries
+    from armi.nuclearDataIO.cccc import compxs
+
+    new = xsLibraries.CompxsLibrary()
+    md, old = new.compxsMetadata, whole.compxsMetadata
+    for k, v in old.items():
+        md[k] = v
+    md["numComps"] = len(keep)
+    for k in ("compFamiliesWithPrecursors", "fissionWattSeconds", "captureWattSeconds"):
+        md[k] = np.array([old[k][i] for i in keep], dtype=np.asarray(old[k]).dtype)
+    md["numFissComps"] = sum(1 for i in keep if whole.regions[i].metadata["chiFlag"])
+    new.neutronVelocity, new.neutronEnergyUpperBounds = whole._neutronVelocity, whole._neutronEnergyUpperBounds
+    for k, i in enumerate(keep):
+        src = whole.regions[i]
+        reg = compxs.CompxsRegion(new, k)
+        reg.macros = src.macros
+        for key, v in src.metadata.items():
+            reg.metadata[key] = v
+    return new
+
+
+REDUCTIONS = {
+    # fmt: (fixture path, encoding, quick [(keep, clear)], thorough extra as a function of the member count)
+    "isotxs": ("armi/nuclearDataIO/tests/fixtures/mc2v3-AA.isotxs", "bin", 25,
+               [([0], None), ([1], None), ([4], None), ([7], None), ([24], None), ([0, 1], None), ([7, 2, 4], None),
+                ([0], "n2n"), ([0], "fis"), ([0], "block0"), ([0], "block4"), ([0], "ltrn1"), ([4], "block1"), ([0, 4], "block5")]),
+    "gamiso": ("armi/nuclearDataIO/tests/fixtures/mc2v3-AA.gamiso", "bin", 25, [([0], None), ([3], None), ([1, 0], None), ([0], "block0"), ([3], "block3")]),
+    "pmatrx": ("armi/nuclearDataIO/tests/fixtures/mc2v3-AA.pmatrx", "bin", 25, [([0], None), ([5], None), ([1, 0], None), ([0], "heat"), ([0], "gheat"), ([0], "order0")]),
+    "dlayxs": ("armi/nuclearDataIO/cccc/tests/fixtures/mc2v3.dlayxs", "bin", 14, [([0], None), ([10], None), ([0, 10], None), ([13, 0, 5], None)]),
+    "compxs": ("armi/tests/COMPXS.ascii", "ascii", 3, [([0], None), ([1], None), ([2], None), ([0, 1], None), ([1, 2], None), ([2, 0], None)]),
+}
+
+
+def reduction_cases(quick):
+    out = []
+    for fmt, (path, enc, n, picks) in REDUCTIONS.items():
+        sel = list(picks)
+        if not quick:
+            have = {tuple(k) for k, c in sel if c is None}
+            for i in range(n):
+                if (i,) not in have:
+                    sel.append(([i], None))
+            for i in range(n - 1):
+                if (i, i + 1) not in have:
+                    sel.append(([i, i + 1], None))
+        for keep, clear in sel:
+            c = {"kind": "reduce", "fmt": fmt, "path": path, "enc": enc, "keep": keep}
+            if clear:
+                c["clear"] = clear
+            out.append(c)
+    return out
